@@ -32,7 +32,9 @@ import (
 //                  | conncode (connection code create+activate; such mappings have an
 //                  empty secret)
 //   tunnel state   none | waiting (victim source bridge waits locally) | served (victim
-//                  source+target bridged) | remote (victim bridge waits on another node)
+//                  source+target bridged) | remote (victim bridge waits on another node,
+//                  requester is forwarded over the real cross-node TCP link) | racing
+//                  (victim source open and requester open issued concurrently)
 //   mapping state  active | revoked | revoked-reactivated (revoked, then status set back to
 //                  active) | expired | inactive | missing  (reached through the real
 //                  services AFTER the victim's tunnel was set up)
@@ -628,7 +630,7 @@ func c04RunCell(t *testing.T, run *vk.Run, cell c04Cell, idx int) (obs c04Obs, o
 		}
 		vdone := make(chan struct{})
 		r := run.Rand(fmt.Sprintf("race-%d", idx))
-		w.jitter = [2]time.Duration{time.Duration(r.Intn(200)) * time.Microsecond, time.Duration(r.Intn(200)) * time.Microsecond}
+		w.jitter = [2]time.Duration{time.Duration(r.Intn(300)) * time.Microsecond, time.Duration(r.Intn(1500)) * time.Microsecond}
 		go func() {
 			defer close(vdone)
 			time.Sleep(w.jitter[0])
@@ -848,7 +850,7 @@ func TestVerifC04Matrix(t *testing.T) {
 func TestVerifC04Race(t *testing.T) {
 	run := vk.Start(t, "C04", "race")
 	defer run.Finish()
-	run.Rule("seeded draws of (mapping kind, mapping state, identity, credential) with tunnel-state=racing: victim source open and requester open run concurrently with seeded 0-300us start offsets; distinct = cell x which side the dispatcher served first (observed)")
+	run.Rule("seeded draws of (mapping kind, mapping state, identity, credential) with tunnel-state=racing: victim source open and requester open run concurrently with seeded start offsets (victim 0-300us, requester 0-1500us: the victim's validated open takes about a millisecond); distinct = cell x which side the dispatcher served first (observed)")
 	r := run.Rand("cells")
 	n := run.Pick(150, 3000)
 	for i := 0; i < n; i++ {
